@@ -19,7 +19,9 @@ func newSkipList() List {
 func (l *list) Insert(id interface{}, deadline time.Time) {
 	l.mtx.Lock()
 	defer l.mtx.Unlock()
-	l.insert(id, deadline.Round(time.Second))
+	// insert() rounds for the bucket key itself; the item keeps the exact
+	// deadline, which is what Delete and Update look it up by.
+	l.insert(id, deadline)
 }
 
 func (l *list) Reset() {
